@@ -1,9 +1,9 @@
 #!/bin/bash
-# usage: seedtest_mirror.sh <patch.diff> <prop> [tier]
+# usage: [MIRROR_ID=n] seedtest_mirror.sh <patch.diff> <prop> [tier]   (MIRROR_ID: several mirrors side by side)
 # Like seedtest.sh, but works on a scratch copy (/tmp/vmirror = copy of /verif/harness whose go.mod points to the
 # scratch worktree /tmp/repo-seed), so that /repo and /verif/evidence stay untouched while other checks run there.
 patch=$1; prop=$2; tier=${3:-quick}
-M=/tmp/vmirror; R=/tmp/repo-seed
+I=${MIRROR_ID:-}; M=/tmp/vmirror$I; R=/tmp/repo-seed$I; O=/tmp/seedtest-mirror$I.out
 mkdir -p $M
 rsync -a --delete --exclude bin ${SRC_HARNESS:-/verif/harness}/ $M/harness/
 cp /verif/check.sh /verif/known_findings.txt $M/
@@ -13,9 +13,9 @@ if [ ! -d $R ]; then git -C /repo worktree add -q --detach $R $head || exit 2; f
 cd $R && git checkout -q -- . && git clean -fdq && git checkout -q --detach $head || exit 2
 if [ "$patch" != none ]; then git apply "$patch" || { echo "PATCH DOES NOT APPLY"; exit 3; }; fi
 cd $M
-VERIF_DIR=$M timeout ${SEED_TIMEOUT:-900} ./check.sh $prop $tier > /tmp/seedtest-mirror.out 2>&1
+VERIF_DIR=$M timeout ${SEED_TIMEOUT:-900} ./check.sh $prop $tier > $O 2>&1
 rc=$?
 cd $R && git checkout -q -- . && git clean -fdq
-echo "rc=$rc $(grep -c '^VIOLATION' /tmp/seedtest-mirror.out) violation line(s)"
-grep -A1 '^VIOLATION' /tmp/seedtest-mirror.out | head -${SEED_LINES:-4} | cut -c1-${SEED_COLS:-500}
-tail -1 /tmp/seedtest-mirror.out | cut -c1-300
+echo "rc=$rc $(grep -c '^VIOLATION' $O) violation line(s)"
+grep -A1 '^VIOLATION' $O | head -${SEED_LINES:-4} | cut -c1-${SEED_COLS:-500}
+tail -1 $O | cut -c1-300
